@@ -1479,6 +1479,19 @@ def assume(term, facts):
             return assume(term[2], facts)
         if negate(c) in facts:
             return assume(term[3], facts)
+        # a conjunction all of whose parts are assumed holds; one with an assumed-false part fails (dually for `or`)
+        if isinstance(c, tuple) and c and c[0] in ("and", "or") and len(c) == 2 and isinstance(c[1], tuple):
+            known = [True if p in facts else (False if negate(p) in facts else None) for p in c[1]]
+            if c[0] == "and":
+                if all(k is True for k in known):
+                    return assume(term[2], facts)
+                if any(k is False for k in known):
+                    return assume(term[3], facts)
+            else:
+                if any(k is True for k in known):
+                    return assume(term[2], facts)
+                if all(k is False for k in known):
+                    return assume(term[3], facts)
         return gate(c, assume(term[2], facts), assume(term[3], facts))
     if term[0] in ("const", "param", "field0", "global", "str", "mu", "eta", "elem", "undef"):
         return term
@@ -2397,6 +2410,24 @@ class Summariser:
                 self.on_yield(self, val, events, st)
                 return
             self.expr(st.value, events)
+        elif isinstance(st, ast.Assign) and len(st.targets) == 1 and isinstance(st.targets[0], (ast.Tuple, ast.List)) and \
+                isinstance(st.value, (ast.GeneratorExp, ast.ListComp)) and len(st.value.generators) == 1 and \
+                not st.value.generators[0].ifs and isinstance(st.value.generators[0].target, ast.Name) and \
+                not any(isinstance(e_, ast.Starred) for e_ in st.targets[0].elts) and self._const_items(st.value.generators[0].iter) is not None \
+                and len(self._const_items(st.value.generators[0].iter)) == len(st.targets[0].elts):
+            # a, b = (make(name) for name in ("x", "y")): the element expression is evaluated once per constant
+            var = st.value.generators[0].target.id
+            saved = self.env.get(var, None)
+            vals = []
+            for item in self._const_items(st.value.generators[0].iter):
+                self.env[var] = item
+                vals.append(self.expr(st.value.elt, events))
+            if saved is None:
+                self.env.pop(var, None)
+            else:
+                self.env[var] = saved
+            for el, v_ in zip(st.targets[0].elts, vals):
+                self.assign(el, v_, events, st)
         elif isinstance(st, ast.Assign) and self._comp_as_loop(st) is not None:
             for s_ in self._comp_as_loop(st):
                 self.stmt(s_, events)
@@ -2444,7 +2475,24 @@ class Summariser:
         else:
             raise Unsupported(f"{type(st).__name__} at {self.module.path}:{st.lineno}")
 
+    def _data_descriptor(self, attr):
+        """The class of the data descriptor object bound to `attr` in the class body (a package class with __set__), if any."""
+        if self.cls is None:
+            return None
+        for k in self.prog.mro(self.cls):
+            node = k.class_attrs.get(attr)
+            if isinstance(node, ast.Call) and isinstance(node.func, (ast.Name, ast.Attribute)):
+                K = self.prog.resolve_class(k.module, node.func)
+                if K is not None and self.prog.find_method(K, "__set__")[1] is not None:
+                    return K
+        return None
+
     def assign(self, target, val, events, st, aug=None):
+        if isinstance(target, ast.Attribute) and self.is_self(target.value) and not self.field_prefix and \
+                self._data_descriptor(target.attr) is not None:
+            raise Unsupported(f"assignment to self.{target.attr} goes through the data descriptor "
+                              f"{self._data_descriptor(target.attr).name}.__set__, which is not followed "
+                              f"({self.module.path}:{st.lineno})")
         if isinstance(target, ast.Name):
             self.env[target.id] = val
             if aug is None and val[0] == "new" and self._private_class(val) is not None:
@@ -2528,6 +2576,13 @@ class Summariser:
             for i, el in enumerate(target.elts):
                 item = relabel_loop(subst(val[5], {("elem", val[2]): ("const", i)}), val[2], self.ids.next())
                 self.assign(el, item, events, st)
+        elif isinstance(target, (ast.Tuple, ast.List)) and val[0] == "comp" and val[1] in ("gen", "list") and \
+                val[4] is None and not val[6] and val[5][0] != "flat" and val[3][0] == "tuple" and len(val[3]) == 2 and \
+                len(val[3][1]) == len(target.elts) and not any(isinstance(e, ast.Starred) for e in target.elts) and \
+                all(i[0] == "const" for i in val[3][1]):
+            # a, b = (make(name) for name in ("x", "y")): the element expression once per constant
+            for el, item in zip(target.elts, val[3][1]):
+                self.assign(el, subst(val[5], {("elem", val[2]): item}), events, st)
         elif isinstance(target, (ast.Tuple, ast.List)) and sum(isinstance(e, ast.Starred) for e in target.elts) == 1 and \
                 val[0] == "tuple" and len(val[1]) >= len(target.elts) - 1 and \
                 not any(isinstance(x, tuple) and x and x[0] == "star" for x in val[1]):
@@ -2558,6 +2613,19 @@ class Summariser:
                 events.append(AttrStore(obj, target.attr, val, st.lineno))
         else:
             raise Unsupported(f"assign target {ast.unparse(target)} at {self.module.path}:{st.lineno}")
+
+    def _const_items(self, node):
+        """Items of a tuple / list display of constants (written out, or a module-level constant), else None."""
+        try:
+            t = self._expr(node, []) if isinstance(node, (ast.Name, ast.Tuple, ast.List, ast.Attribute)) else None
+        except Unsupported:
+            return None
+        if t is None:
+            return None
+        items = t[1] if (t[0] == "tuple" and len(t) == 2) else (t[3] if t[0] == "new" and t[2] == "list" and t[1] in self.prog.list_literals else None)
+        if items is None or not (1 <= len(items) <= 4) or not all(isinstance(i, tuple) and i and i[0] == "const" for i in items):
+            return None
+        return items
 
     def _comp_as_loop(self, st):
         """`T = {k: v for x in it}` / `T = [v for x in it]` whose element rebinds variables of the function (a walrus,
@@ -3554,6 +3622,19 @@ class Summariser:
                 if key not in self.fields:
                     raise Unsupported(f"attribute {e.attr} of a namespace read before it is set at {self.module.path}:{e.lineno}")
                 return assume(self.fields[key], self.facts) if self.facts else self.fields[key]
+            if v[0] == "gate" and record_names(v[2]) and record_names(v[3]) and not isinstance(e.value, _Term):
+                # an attribute / property of a selection between two records: taken on whichever record is selected
+                parts = []
+                for arm, fact in ((v[2], v[1]), (v[3], negate(v[1]))):
+                    node = ast.Attribute(value=_Term(arm, e.value), attr=e.attr, ctx=ast.Load())
+                    ast.copy_location(node, e)
+                    node.end_lineno = getattr(e, "end_lineno", e.lineno)
+                    self.facts.append(fact)
+                    try:
+                        parts.append(self._expr(node, events))
+                    finally:
+                        self.facts.pop()
+                return gate(v[1], parts[0], parts[1])
             names = record_names(v) if v[0] == "tuple" else None
             if names and e.attr not in names:
                 # a property of the immutable record class, read on a record display
@@ -4206,6 +4287,10 @@ class Summariser:
             got = self.enum_method(recv, f.attr, args, kwargs, events, e)
             if got is not None:
                 return got
+            helper = self._copy_helper(recv, f.attr) if not f.attr.startswith("__") else None
+            if helper is not None:
+                return self.inline_function(helper[0].module, helper[1], f"{helper[0].qual}.{f.attr}", (recv,) + tuple(args),
+                                            dict(kwargs), events, e, level=0)
             if self._object_choice(recv) and not isinstance(f.value, _Term):
                 # (A if c else B).method(...): the call goes to whichever object the condition picks
                 tmp = f"call@{e.lineno}:{e.col_offset}:{len(self.stack)}"
@@ -4797,6 +4882,10 @@ class Summariser:
         got = self._record_method(recv, meth, args, kwargs, events, e)
         if got is not None:
             return got
+        helper = self._copy_helper(recv, meth) if not meth.startswith("__") else None
+        if helper is not None:
+            return self.inline_function(helper[0].module, helper[1], f"{helper[0].qual}.{meth}", (recv,) + tuple(args),
+                                        dict(kwargs), events, e, level=0)
         if meth in SET_ALGEBRA and len(args) == 1 and not kwargs:
             return ("op", SET_ALGEBRA[meth], recv, args[0])
         if meth == "__getitem__" and len(args) == 1 and not kwargs:
@@ -4865,6 +4954,35 @@ class Summariser:
                     cache[key] = self.class_of(v, depth + 1)
             return cache[key]
         return None
+
+    def _copy_helper(self, recv, meth):
+        """obj.meth() where every class obj can be an instance of (as far as the code fixes it) inherits the same
+        definition of `meth`, and that definition only hands the object on as a whole (`return copy.deepcopy(self)`):
+        (class, definition) to inline with the object bound to `self`; else None."""
+        def leaves(t):
+            return leaves(t[2]) + leaves(t[3]) if t[0] == "gate" else [t]
+        found = set()
+        for l in leaves(recv):
+            K = self.class_of(l)
+            if K is None:
+                return None
+            c, m = self.prog.find_method(K, meth)
+            if m is None:
+                return None
+            found.add((c.qual, id(m)))
+            hit = (c, m)
+        if len(found) != 1:
+            return None
+        c, m = hit
+        if m.decorator_list or not m.args.args or len(m.body) > 3 or not self._can_inline_function(c.module, m):
+            return None
+        me = m.args.args[0].arg
+        body = [b for b in m.body if not (isinstance(b, ast.Expr) and isinstance(b.value, ast.Constant))]
+        if not (len(body) == 1 and isinstance(body[0], ast.Return) and isinstance(body[0].value, ast.Call) and
+                ast.unparse(body[0].value.func) in ("copy.deepcopy", "copy.copy", "deepcopy") and
+                len(body[0].value.args) == 1 and isinstance(body[0].value.args[0], ast.Name) and body[0].value.args[0].id == me):
+            return None
+        return c, m
 
     def fluent(self, recv, meth):
         """Does this method call hand back its receiver (`return self` on every path of the method of the
@@ -5144,6 +5262,11 @@ class Summariser:
             c, m = self.prog.find_method(self.cls, recv[1])
             if m is not None:
                 return self.inline(c, m, tuple(recv[2]), dict(recv[3]), events, e)      # methodcaller(name, ...)(self) is self.name(...)
+        if recv[0] == "methodcaller" and len(args) == 1 and not kwargs and args[0][0] == "field0" and self.cls is not None and \
+                "." not in args[0][1] and not self.field_prefix and self.fields.get(args[0][1], args[0]) == args[0] and \
+                isinstance(recv[1], str) and self._owned_class(args[0][1]) is None and not self._is_property(args[0][1]):
+            # methodcaller(name, ...)(self.part) is self.part.name(...)
+            return self._field_method_call(args[0][1], recv[1], tuple(recv[2]), tuple(recv[3]), events, e)
         if recv[0] == "methodcaller" and len(args) == 1 and not kwargs:
             margs, mkw = recv[2], recv[3]
             res = ("res", self.site(e), "." + recv[1], (args[0],) + margs, mkw)
@@ -5724,6 +5847,8 @@ class Summariser:
             v = self._const_term(m, e)
             if v is not None and v[0] == "const":
                 return v
+            if v is not None and v[0] == "global" and not v[1].startswith("?") and isinstance(e, ast.Attribute):
+                return v            # a library function as default (`randrange=random.randrange`)
         return ("default", ast.unparse(e))
 
 
